@@ -15,6 +15,12 @@
 //!       ["corrupt_then", src, n, [action..]]  (sim mode: like corrupt_read, then - in the same poll, hence the
 //!                                  same host tick - the host code performs the actions
 //!                                  ["build", ty, reaction, cond] | ["drop_barrier", b] | ["mark"]) |
+//!       ["tick", src, [action..]]  (sim mode: one poll = one host tick; actions as above plus ["read", n]; the
+//!                                  registry may be empty when the tick starts) |
+//!       ["guarded", src, ty, n, sync, [[gty, gv]..], catch]  (the source creates guards whose Drop calls
+//!                                  trigger_noop((gty, gv)), then calls trigger / trigger_noop (sync) with (ty, n):
+//!                                  if that panics the guards fire while the task unwinds; catch = inside
+//!                                  std::panic::catch_unwind, the source goes on) |
 //!       ["corrupt_read", src, n]  (sim mode: the source reads one byte at offset n of its file with
 //!                                  corruption_probability 1, so turmoil-fs fires the corruption hook,
 //!                                  i.e. trigger_noop(FsCorruption{offset: n, ..}), synchronously)
@@ -78,6 +84,20 @@ enum SrcCmd {
     Noop(u64, u64),
     CorruptRead(u64),
     CorruptThen(u64, Vec<Value>),
+    Tick(Vec<Value>),
+    Guarded { ty: u64, n: u64, sync: bool, guards: Vec<(u64, u64)>, catch: bool },
+}
+
+/// Fires a synchronous trigger from its destructor (a clean-up event).
+struct Guard(u64, u64);
+impl Drop for Guard {
+    fn drop(&mut self) {
+        if self.0 == 0 {
+            trigger_noop(TA(self.1))
+        } else {
+            trigger_noop(TB(self.1))
+        }
+    }
 }
 
 struct Src {
@@ -125,6 +145,25 @@ fn build_barrier(c: &Value) -> AnyBarrier {
     }
 }
 
+fn run_actions(s: &Rc<Src>, test: &Option<Rc<RefCell<Test>>>, actions: &[Value]) {
+    for a in actions {
+        match a[0].as_str().unwrap() {
+            "mark" => s.marks.set(s.marks.get() + 1),
+            "read" => corrupt_read(a[1].as_u64().unwrap()),
+            "build" => {
+                let b = build_barrier(a);
+                test.as_ref().unwrap().borrow_mut().barriers.push(Some(b));
+            }
+            "drop_barrier" => {
+                let b = a[1].as_u64().unwrap() as usize;
+                let taken = test.as_ref().unwrap().borrow_mut().barriers.get_mut(b).and_then(|x| x.take());
+                drop(taken);
+            }
+            x => panic!("unknown action {x}"),
+        }
+    }
+}
+
 async fn source_loop(s: Rc<Src>, test: Option<Rc<RefCell<Test>>>) {
     loop {
         let cmd = s.q.borrow_mut().pop_front();
@@ -152,19 +191,23 @@ async fn source_loop(s: Rc<Src>, test: Option<Rc<RefCell<Test>>>) {
             SrcCmd::CorruptThen(n, actions) => {
                 corrupt_read(n);
                 // still the same poll of this task, i.e. the same host tick
-                for a in &actions {
-                    match a[0].as_str().unwrap() {
-                        "mark" => s.marks.set(s.marks.get() + 1),
-                        "build" => {
-                            let b = build_barrier(a);
-                            test.as_ref().unwrap().borrow_mut().barriers.push(Some(b));
-                        }
-                        "drop_barrier" => {
-                            let b = a[1].as_u64().unwrap() as usize;
-                            let taken = test.as_ref().unwrap().borrow_mut().barriers.get_mut(b).and_then(|x| x.take());
-                            drop(taken);
-                        }
-                        x => panic!("unknown action {x}"),
+                run_actions(&s, &test, &actions);
+            }
+            SrcCmd::Tick(actions) => run_actions(&s, &test, &actions),
+            SrcCmd::Guarded { ty, n, sync, guards, catch } => {
+                if catch {
+                    let _ = std::panic::catch_unwind(std::panic::AssertUnwindSafe(|| {
+                        let _g: Vec<Guard> = guards.iter().map(|(a, b)| Guard(*a, *b)).collect();
+                        if ty == 0 { trigger_noop(TA(n)) } else { trigger_noop(TB(n)) }
+                    }));
+                } else {
+                    let _g: Vec<Guard> = guards.iter().map(|(a, b)| Guard(*a, *b)).collect();
+                    if sync {
+                        if ty == 0 { trigger_noop(TA(n)) } else { trigger_noop(TB(n)) }
+                    } else if ty == 0 {
+                        trigger(TA(n)).await
+                    } else {
+                        trigger(TB(n)).await
                     }
                 }
             }
@@ -187,6 +230,32 @@ impl Test {
                 let b = build_barrier(c);
                 self.barriers.push(Some(b));
                 json!(self.barriers.len() - 1)
+            }
+            "tick" | "guarded" => {
+                let s = c[1].as_u64().unwrap() as usize;
+                let src = &srcs[s];
+                if src.started.get() != src.returned.get() + src.abandoned.get() || finished(s) || src.killed.get() {
+                    return json!("busy");
+                }
+                let cmd = if name == "tick" {
+                    SrcCmd::Tick(c[2].as_array().cloned().unwrap_or_default())
+                } else {
+                    SrcCmd::Guarded {
+                        ty: c[2].as_u64().unwrap(),
+                        n: c[3].as_u64().unwrap(),
+                        sync: c[4].as_bool().unwrap_or(false),
+                        guards: c[5]
+                            .as_array()
+                            .unwrap()
+                            .iter()
+                            .map(|g| (g[0].as_u64().unwrap(), g[1].as_u64().unwrap()))
+                            .collect(),
+                        catch: c[6].as_bool().unwrap_or(false),
+                    }
+                };
+                src.q.borrow_mut().push_back(cmd);
+                src.notify.notify_one();
+                json!("sent")
             }
             "trigger" | "trigger_noop" | "corrupt_read" | "corrupt_then" => {
                 let s = c[1].as_u64().unwrap() as usize;
@@ -398,7 +467,7 @@ fn run_sim(case: &Value) -> Value {
         }
         if let Some(msg) = panicked {
             if let Some(i) = c.get(1).and_then(|x| x.as_u64()) {
-                if matches!(c[0].as_str(), Some("corrupt_then") | Some("corrupt_read") | Some("trigger") | Some("trigger_noop")) {
+                if matches!(c[0].as_str(), Some("corrupt_then") | Some("corrupt_read") | Some("trigger") | Some("trigger_noop") | Some("tick") | Some("guarded")) {
                     dead[i as usize] = true;
                 }
             }
